@@ -115,6 +115,15 @@ Proof.
     pose proof (grow_cap_gt (vsize v)). unfold vsize in *. lia.
 Qed.
 
+Lemma push_growth : forall v x, 1 <= vsize v -> vsize v = vcap v ->
+  vcap (do_push_back v x) = grow_cap (vsize v) /\ vsize v < grow_cap (vsize v).
+Proof.
+  intros v x H E. pose proof (grow_cap_gt (vsize v) H) as G. split; [|assumption].
+  unfold do_push_back. assert (vsize v <? vcap v = false) as -> by (apply Nat.ltb_ge; lia).
+  assert (vsize v =? 0 = false) as -> by (apply Nat.eqb_neq; lia). simpl.
+  unfold copy_with. assert (0 <? vsize v = true) as -> by (apply Nat.ltb_lt; lia). simpl. lia.
+Qed.
+
 Lemma push_all_wf : forall xs v, wf v -> wf (push_all v xs).
 Proof. induction xs; intros; simpl; [assumption|]. apply IHxs, push_wf, H. Qed.
 
